@@ -14,8 +14,15 @@ def sh(cmd, cwd=wt, timeout=5400):
     p = subprocess.run(cmd, shell=True, cwd=cwd, env=env, stdout=subprocess.PIPE, stderr=subprocess.STDOUT, text=True, timeout=timeout)
     return p.returncode, p.stdout
 subprocess.run(['git', '-C', '/repo', 'worktree', 'remove', '--force', wt], capture_output=True)
-subprocess.check_call(['git', '-C', '/repo', 'worktree', 'add', '-q', '--detach', wt, 'HEAD'])
-rec = dict(seed=sd, repo_head=subprocess.check_output(['git', '-C', '/repo', 'rev-parse', 'HEAD'], text=True).strip())
+base = 'HEAD'
+for cand in ['HEAD', '66dce20', 'c50f64c']:
+    subprocess.run(['git', '-C', '/repo', 'worktree', 'remove', '--force', wt], capture_output=True)
+    subprocess.check_call(['git', '-C', '/repo', 'worktree', 'add', '-q', '--detach', wt, cand])
+    ok = all(subprocess.run(['git', '-C', wt, 'apply', '--check', os.path.join(sd, f)], capture_output=True).returncode == 0 for f in ('demo.diff', 'patch.diff'))
+    if ok:
+        base = cand
+        break
+rec = dict(seed=sd, repo_commit_used=subprocess.check_output(['git', '-C', wt, 'rev-parse', 'HEAD'], text=True).strip(), base=base)
 try:
     rc, out = sh('git apply %s' % os.path.join(sd, 'demo.diff'))
     assert rc == 0, 'demo.diff does not apply: ' + out
